@@ -27,7 +27,7 @@
    class c, 100c constructor); nested blocks append <<arm, j>>; catch block q of a body: <<b, -q, j>>.
    Names are ASCII symbols (TLC's Json module cannot carry non-ASCII text): "@display" = 显示,
    "@exc" = 异常, "@content" = 内容, "@len" 长度, "@first" 首项, "@last" 末项, "@append" 后增,
-   "@prepend" 前增, "@shift" 左移, "@pop" 右移, "@put" 写入, "@remove" 移除, "@true" 真 ...; the
+   "@self" 自身, "@prepend" 前增, "@shift" 左移, "@pop" 右移, "@put" 写入, "@remove" 移除, "@true" 真 ...; the
    harness's symbol table maps them (and user identifiers) to glyphs. *)
 EXTENDS Integers, Sequences, FiniteSets, TLC, Json
 
@@ -231,7 +231,8 @@ Fault(msg) ==
   /\ exc' = [on |-> TRUE, v |-> VRef(Len(heap) + 1), cls |-> "@exc", msg |-> msg, builtin |-> TRUE,
              path |-> F.cur, chain |-> [j \in 1..Len(frames) |-> frames[j].cur], arity |-> FALSE]
   /\ UNCHANGED <<prog, frames, syms, depth, out, tr, res, nact>>
-FaultA(msg) ==          \* same, flagged: raised while binding a call (no statement of the callee ran)
+FaultA(msg) ==          \* same, flagged: raised while binding a call (no statement of the callee ran; whether the
+                        \* report lists the half-made call as an extra innermost entry is not demanded)
   /\ heap' = Append(heap, [k |-> "exc", msg |-> msg, bi |-> TRUE])
   /\ exc' = [on |-> TRUE, v |-> VRef(Len(heap) + 1), cls |-> "@exc", msg |-> msg, builtin |-> TRUE,
              path |-> F.cur, chain |-> [j \in 1..Len(frames) |-> frames[j].cur], arity |-> TRUE]
@@ -416,7 +417,8 @@ IStoreIdx == /\ I.i = "storeidx"
 PropOf(v, p) ==
   IF v.t = "ref" THEN
        LET c == heap[v.id] IN
-       IF c.k = "obj" THEN (LET q == IndexOf(c.keys, p, 1) IN IF q = 0 THEN [f |-> "prop"] ELSE [f |-> "", v |-> c.vals[q]])
+       IF c.k = "obj" THEN (IF p = "@self" THEN [f |-> "", v |-> v]
+                            ELSE LET q == IndexOf(c.keys, p, 1) IN IF q = 0 THEN [f |-> "prop"] ELSE [f |-> "", v |-> c.vals[q]])
        ELSE IF c.k = "exc" THEN (IF p = "@content"
                                  THEN [f |-> "", v |-> IF c.bi THEN [t |-> "faultmsg", v |-> c.msg] ELSE VStr(c.msg)]
                                  ELSE [f |-> "prop"])
@@ -478,7 +480,7 @@ ICall == /\ I.i = "call"
                  /\ frames' = Adv(Append(Below(I.n), VNull))
                  /\ UNCHANGED <<syms, depth, heap, exc, nact>>
             ELSE IF Lookup(I.f) > 0 \/ I.f \notin FuncNames THEN
-                 (IF Lookup(I.f) > 0 \/ I.f \in Globals \/ I.f \in ClassNames THEN Fault("notfunc") ELSE Fault("undefined"))
+                 (IF Lookup(I.f) > 0 \/ I.f \in Globals \/ I.f \in ClassNames THEN FaultA("notfunc") ELSE Fault("undefined"))
                  /\ UNCHANGED <<frames, syms, depth, out, nact>>
             ELSE LET fn == prog.funcs[FuncIdx(I.f)] IN
                  IF Len(fn.params) # I.n THEN FaultA("arity") /\ UNCHANGED <<frames, syms, depth, out, nact>>
@@ -515,16 +517,16 @@ IMCall == /\ I.i = "mcall"
           /\ LET root == Stk[Len(Stk) - I.n]
                  as == Args(I.n)
                  rest == SubSeq(Stk, 1, Len(Stk) - I.n - 1)
-             IN IF root.t # "ref" THEN Fault("method") /\ UNCHANGED <<frames, syms, depth, nact>>
+             IN IF root.t # "ref" THEN FaultA("method") /\ UNCHANGED <<frames, syms, depth, nact>>
                 ELSE LET c == heap[root.id] IN
                      IF c.k = "obj" THEN
                           LET cl == prog.classes[ClassIdx(c.cls)]
                               q == MethodIdx(cl, I.m)
-                          IN IF q = 0 THEN Fault("method") /\ UNCHANGED <<frames, syms, depth, nact>>
+                          IN IF q = 0 THEN FaultA("method") /\ UNCHANGED <<frames, syms, depth, nact>>
                              ELSE IF Len(cl.methods[q].params) # I.n THEN FaultA("arity") /\ UNCHANGED <<frames, syms, depth, nact>>
                              ELSE Enter(cl.methods[q], <<100 * ClassIdx(c.cls) + q>>, root, as, rest, "") /\ UNCHANGED <<heap, exc>>
                      ELSE LET r == Builtin(c, I.m, as, root) IN
-                          IF r.f # "" THEN Fault(r.f) /\ UNCHANGED <<frames, syms, depth, nact>>
+                          IF r.f # "" THEN FaultA(r.f) /\ UNCHANGED <<frames, syms, depth, nact>>
                           ELSE /\ heap' = [heap EXCEPT ![root.id] = r.cell]
                                /\ frames' = Adv(Append(rest, r.v))
                                /\ UNCHANGED <<syms, depth, exc, nact>>
@@ -719,11 +721,17 @@ ScopeBalanced ==
   /\ \A j \in 1..Len(syms) : syms[j].depth <= depth
   /\ \A j \in 1..Len(syms) - 1 : syms[j].depth <= syms[j + 1].depth
 NoDuplicateAtDepth == \A a, b \in 1..Len(syms) : (a # b /\ syms[a].name = syms[b].name) => syms[a].depth # syms[b].depth
-\* C07 FreshOnBind: list/dictionary cells reachable from two different variable slots are disjoint,
-\* unless the slot was bound by parameter passing / 得到 (constants with shared values are allowed there)
+\* C07 FreshOnBind: immediately after a variable has been bound by 令 / = (the instruction before pc is
+\* the decl/store that just completed) the list/dictionary cells reachable from the bound slot are
+\* disjoint from the cells reachable from every other variable slot - each name has its own copy.
+\* (Arguments of calls and built-in methods are passed without a copy; the property does not cover them.)
 SlotReach(j) == Reach(syms[j].val, heap, 6)
-FreshVars == \A a, b \in 1..Len(syms) :
-               (a < b /\ ~syms[a].const /\ ~syms[b].const) => SlotReach(a) \cap SlotReach(b) = {}
+JustBound == /\ frames # <<>> /\ ~exc.on /\ Running /\ F.pc > 1 /\ F.pc - 1 <= Len(F.code)
+             /\ F.code[F.pc - 1].i \in {"decl", "store"}
+BoundNames == LET J == F.code[F.pc - 1] IN IF J.i = "decl" THEN {J.names[q] : q \in 1..Len(J.names)} ELSE {J.n}
+FreshOnBind == JustBound =>
+  \A n \in BoundNames : LET j == Lookup(n) IN
+     j > 0 => \A q \in 1..Len(syms) : q # j => SlotReach(q) \cap SlotReach(j) = {}
 \* C08/C09: handler frames sit directly above their owner; owners are below
 HandlerShape == \A j \in 1..Len(frames) : frames[j].kind = "handler" => (frames[j].owner >= 1 /\ frames[j].owner < j)
 TypeOK == /\ depth >= 0 /\ res.k \in {"run", "value", "error"}
